@@ -199,6 +199,9 @@ pub fn cell_matches(cell: &str, want: &Cell, width: usize) -> Result<(), String>
             }
         }
         Cell::Int(v) => {
+            if t.is_empty() {
+                return Err(format!("expected {v}, printed blank"));
+            }
             if cell.ends_with(' ') && t.len() < width {
                 return Err(format!("number not right-aligned: {cell:?}"));
             }
@@ -208,6 +211,9 @@ pub fn cell_matches(cell: &str, want: &Cell, width: usize) -> Result<(), String>
             }
         }
         Cell::Float(v) => {
+            if t.is_empty() {
+                return Err(format!("expected {v}, printed blank"));
+            }
             if cell.ends_with(' ') && t.len() < width {
                 return Err(format!("number not right-aligned: {cell:?}"));
             }
